@@ -45,10 +45,12 @@ var defaultNames = map[string]string{
 }
 
 type stats struct {
-	yields, gos, selects, mapRanges, mapRangesSkipped, files int
+	yields, gos, selects, mapRanges, mapRangesSkipped, files, mapAccesses, mapHoists int
 }
 
 var st stats
+
+var mapsFlag = flag.Bool("maps", false, "announce map accesses (zzsim.M) before statements that cannot synchronise")
 
 var allSites []string
 var refusals []string
@@ -153,8 +155,8 @@ func main() {
 			fatal(err)
 		}
 	}
-	fmt.Printf("simrewrite: files=%d yields=%d go=%d selects=%d mapranges=%d mapranges_unordered=%d\n",
-		st.files, st.yields, st.gos, st.selects, st.mapRanges, st.mapRangesSkipped)
+	fmt.Printf("simrewrite: files=%d yields=%d go=%d selects=%d mapranges=%d mapranges_unordered=%d mapaccesses=%d hoisted=%d\n",
+		st.files, st.yields, st.gos, st.selects, st.mapRanges, st.mapRangesSkipped, st.mapAccesses, st.mapHoists)
 }
 
 func fatal(err error) {
@@ -276,8 +278,183 @@ func (rw *rewriter) list(in []ast.Stmt) []ast.Stmt {
 	out := make([]ast.Stmt, 0, 2*len(in))
 	for _, s := range in {
 		pos := s.Pos()
+		pre := rw.hoistCall(s)
+		hooks := rw.mapHooks(s)
 		ns := rw.stmt(s)
-		out = append(out, rw.yield(pos), ns)
+		out = append(out, rw.yield(pos))
+		out = append(out, pre...)
+		out = append(out, hooks...)
+		out = append(out, ns)
+	}
+	return out
+}
+
+// hoistCall turns `m[k] = pkg.F(a, b)` into `t := pkg.F(a, b); m[k] = t` so
+// that the store into the map becomes a statement of its own, which mapHooks
+// can announce. Only where moving the call in front of the evaluation of m
+// and k cannot matter: m is a plain selector chain, k and the arguments are
+// plain selector chains or literals, and F is a function of another package
+// (it cannot reach the caller's variables).
+func (rw *rewriter) hoistCall(s ast.Stmt) []ast.Stmt {
+	if !*mapsFlag {
+		return nil
+	}
+	as, ok := s.(*ast.AssignStmt)
+	if !ok || as.Tok != token.ASSIGN || len(as.Lhs) != 1 || len(as.Rhs) != 1 {
+		return nil
+	}
+	ix, ok := as.Lhs[0].(*ast.IndexExpr)
+	if !ok || !simpleExpr(ix.X) || !plainOperand(ix.Index) {
+		return nil
+	}
+	if t := rw.info.TypeOf(ix.X); t == nil {
+		return nil
+	} else if _, isMap := t.Underlying().(*types.Map); !isMap {
+		return nil
+	}
+	call, ok := as.Rhs[0].(*ast.CallExpr)
+	if !ok || call.Ellipsis.IsValid() {
+		return nil
+	}
+	fun, ok := call.Fun.(*ast.SelectorExpr)
+	if !ok {
+		return nil
+	}
+	pkgID, ok := fun.X.(*ast.Ident)
+	if !ok {
+		return nil
+	}
+	if _, isPkg := rw.info.Uses[pkgID].(*types.PkgName); !isPkg {
+		return nil
+	}
+	if tv, ok := rw.info.Types[call.Fun]; ok && tv.IsType() {
+		return nil
+	}
+	if sig, ok := rw.info.TypeOf(call.Fun).(*types.Signature); !ok || sig.Results().Len() != 1 {
+		return nil
+	}
+	for _, a := range call.Args {
+		if !plainOperand(a) {
+			return nil
+		}
+	}
+	tmp := ast.NewIdent(rw.name("t"))
+	as.Rhs[0] = tmp
+	st.mapHoists++
+	return []ast.Stmt{&ast.AssignStmt{Lhs: []ast.Expr{tmp}, Tok: token.DEFINE, Rhs: []ast.Expr{call}}}
+}
+
+func plainOperand(e ast.Expr) bool {
+	switch e := e.(type) {
+	case *ast.BasicLit:
+		return true
+	case *ast.ParenExpr:
+		return plainOperand(e.X)
+	}
+	return simpleExpr(e)
+}
+
+// mapHooks returns the zzsim.M calls announcing the map accesses of a
+// statement (for an if or switch: of its init statement and condition). Only
+// statements that cannot synchronise with anybody are announced: no call
+// other than a builtin or a conversion, no channel operation, no function
+// literal; and only maps named by a plain selector chain (evaluated twice).
+func (rw *rewriter) mapHooks(s ast.Stmt) []ast.Stmt {
+	if !*mapsFlag {
+		return nil
+	}
+	var parts []ast.Node
+	switch s := s.(type) {
+	case *ast.AssignStmt, *ast.IncDecStmt, *ast.ExprStmt, *ast.ReturnStmt, *ast.DeclStmt:
+		parts = []ast.Node{s}
+	case *ast.IfStmt:
+		if s.Init != nil {
+			parts = append(parts, s.Init)
+		}
+		parts = append(parts, s.Cond)
+	case *ast.SwitchStmt:
+		if s.Init != nil {
+			parts = append(parts, s.Init)
+		}
+		if s.Tag != nil {
+			parts = append(parts, s.Tag)
+		}
+	default:
+		return nil
+	}
+	quiet := true
+	writes := map[ast.Expr]bool{}
+	var accesses []*ast.IndexExpr
+	var deletes []ast.Expr
+	for _, part := range parts {
+		ast.Inspect(part, func(n ast.Node) bool {
+			switch n := n.(type) {
+			case *ast.FuncLit, *ast.SendStmt, *ast.GoStmt, *ast.DeferStmt:
+				quiet = false
+				return false
+			case *ast.UnaryExpr:
+				if n.Op == token.ARROW {
+					quiet = false
+				}
+			case *ast.CallExpr:
+				tv, ok := rw.info.Types[n.Fun]
+				switch {
+				case ok && tv.IsType():
+				case ok && tv.IsBuiltin():
+					if id, isID := n.Fun.(*ast.Ident); isID && id.Name == "delete" && len(n.Args) == 2 {
+						deletes = append(deletes, n.Args[0])
+					} else if isID && (id.Name == "panic" || id.Name == "recover" || id.Name == "close" || id.Name == "print" || id.Name == "println") {
+						quiet = false
+					}
+				default:
+					quiet = false
+				}
+			case *ast.AssignStmt:
+				for _, l := range n.Lhs {
+					if ix, ok := l.(*ast.IndexExpr); ok {
+						writes[ix] = true
+					}
+				}
+			case *ast.IncDecStmt:
+				if ix, ok := n.X.(*ast.IndexExpr); ok {
+					writes[ix] = true
+				}
+			case *ast.IndexExpr:
+				accesses = append(accesses, n)
+			}
+			return true
+		})
+	}
+	if !quiet {
+		return nil
+	}
+	isMap := func(e ast.Expr) bool {
+		t := rw.info.TypeOf(e)
+		if t == nil {
+			return false
+		}
+		_, ok := t.Underlying().(*types.Map)
+		return ok && simpleExpr(e)
+	}
+	var out []ast.Stmt
+	hook := func(m ast.Expr, write bool, pos token.Pos) {
+		w := "false"
+		if write {
+			w = "true"
+		}
+		st.mapAccesses++
+		out = append(out, &ast.ExprStmt{X: &ast.CallExpr{Fun: sel("zzsim", "M"),
+			Args: []ast.Expr{m, ast.NewIdent(w), strLit(rw.site(pos))}}})
+	}
+	for _, ix := range accesses {
+		if isMap(ix.X) {
+			hook(ix.X, writes[ix], s.Pos())
+		}
+	}
+	for _, m := range deletes {
+		if isMap(m) {
+			hook(m, true, s.Pos())
+		}
 	}
 	return out
 }
